@@ -21,7 +21,9 @@
 (***************************************************************************)
 EXTENDS Naturals, Sequences, FiniteSets
 
-CONSTANTS SecpPeers,   \* peers with a secp256k1 (operator) key
+CONSTANTS SecpPeers,   \* peers with a secp256k1 (operator) key; "sx" / "sy" stand for operators whose
+                       \* public key has a leading zero byte in X / in Y (the delivered key is the
+                       \* fixed-width 65-byte form for them too)
           OtherPeers,  \* peers with a valid libp2p key of another type (Ed25519)
           BatchLen
 
